@@ -205,6 +205,34 @@ func scenarios() []*sched.Scenario {
 			vrt.Fail("group|counter-nonzero", "group counters %d/%d after everything finished", g.PendingChildrenCounter.Get(), sub.PendingChildrenCounter.Get())
 		}
 	}})
+	// (G) nested groups: every level must see the pools below it (root -> mid -> leaf -> pool)
+	out = append(out, &sched.Scenario{Name: "group/nested-waitchildren", QuickMaxBound: 2, Run: func() {
+		root := workerpool.NewGroup("root")
+		mid := root.CreateGroup("mid")
+		leaf := mid.CreateGroup("leaf")
+		p := leaf.CreatePool("p", workerpool.WithWorkerCount(1))
+		gate := make(chan struct{})
+		gateOpen := false
+		p.Submit(func() { vrt.Recv(gate) })
+		var ws []vrt.Handle
+		for _, g := range []*workerpool.Group{root, mid, leaf} {
+			g := g
+			ws = append(ws, vrt.Spawn(func() {
+				g.WaitChildren()
+				if !gateOpen {
+					vrt.Fail("group|waitchildren-early", "WaitChildren of group %s returned while a task submitted before the call was still pending in a pool below it", g.Name())
+				}
+			}))
+		}
+		vrt.Quiesce()
+		gateOpen = true
+		vrt.Close(gate)
+		for _, w := range ws {
+			w.Join()
+		}
+		root.Shutdown()
+		p.ShutdownComplete.Wait()
+	}})
 	return out
 }
 
